@@ -22,7 +22,7 @@ MIN_NONVACUOUS = {'quick': {'purity.same_problem_as_fresh': 250, 'purity.probe_d
                   'thorough': {'purity.same_problem_as_fresh': 2000}}
 OPS = ['setup_other', 'setup_other', 'costs_only', 'set_timegrid_none', 'optimize_extract', 'to_json', 'split', 'second_portfolio', 'structured_reuse',
        'asset_alone', 'failing_call', 'same_grid_other_prices', 'setup_other_tz', 'injected_failure', 'injected_failure', 'change_parameter', 'change_parameter',
-       'slp_and_cost_samples']
+       'slp_and_cost_samples', 'fix_window_call']
 _FP = {}
 
 
@@ -103,6 +103,7 @@ def run_case(rng, tier, case):
     import eaopack.io as eio
     from eaopack.portfolio import Portfolio, StructuredAsset
     executed = 0
+    fw_user = None; fw_date = None
     with env.quiet():
         for op in ops:
             g2 = other_grid(rng, spec, same_span=(op == 'setup_other_tz'))
@@ -183,6 +184,14 @@ def run_case(rng, tier, case):
                     samp = [{k: np.asarray(v) for k, v in gen.gen_prices(rng, b.timegrid.T, keys).items()} for _ in range(2)]
                     P.create_cost_samples(samp, b.timegrid)
                     SLP.make_slp(o, P, b.timegrid, b.timegrid.timepoints[k_], samp)
+                elif op == 'fix_window_call':
+                    # a user-supplied fix_time_window dictionary (window given as a date, previous solution longer than this problem - the documented
+                    # SLP case) is used for a set-up on another grid; the SAME dictionary is used again in the final probe
+                    if fw_user is None:
+                        pts_ = gen.grid_points(spec['grid'])
+                        fw_date = pts_[int(rng.integers(0, len(pts_)))]
+                        fw_user = {'I': fw_date if rng.random() < 0.5 else fw_date.to_pydatetime(), 'x': np.zeros(200000)}
+                    P.setup_optim_problem(pr2, tg2, fix_time_window=fw_user)
                 elif op == 'change_parameter':
                     # the user changes a parameter on the asset object between two set-ups (the spec is changed alike, so that the freshly built
                     # objects of the final comparison carry the new value): a later set-up must reflect the new value, not anything remembered
@@ -218,13 +227,16 @@ def run_case(rng, tier, case):
         probe_exc = None; fresh_exc = None
         try:
             tgp = build_timegrid(spec['grid']) if rng.random() < 0.5 else b.timegrid
-            oph = P.setup_optim_problem(b.prices, tgp)
+            oph = P.setup_optim_problem(b.prices, tgp) if fw_user is None else P.setup_optim_problem(b.prices, tgp, fix_time_window=fw_user)
             sh = Snap(oph)
         except Exception as e:
             probe_exc = e
         try:
             b2 = build(spec)
-            opf = b2.portfolio.setup_optim_problem(b2.prices, b2.timegrid)
+            if fw_user is None:
+                opf = b2.portfolio.setup_optim_problem(b2.prices, b2.timegrid)
+            else:
+                opf = b2.portfolio.setup_optim_problem(b2.prices, b2.timegrid, fix_time_window={'I': fw_date, 'x': np.zeros(200000)})
             sf = Snap(opf)
         except Exception as e:
             fresh_exc = e
